@@ -82,6 +82,7 @@ func judge(prop *Property, ep *Episode) []Viol {
 	j.checkHandles()
 	j.checkBarriers()
 	j.checkPause()
+	j.checkResumeReport()
 	j.checkCancel()
 	j.checkStatus()
 	j.checkCounters()
@@ -309,6 +310,9 @@ func (j *judgeCtx) accepted(s *Sub) bool {
 	if !s.Submitted {
 		return false
 	}
+	if s.AddOK == 1 {
+		return true // what the caller was told
+	}
 	if s.AcceptKnown {
 		return s.Accepted
 	}
@@ -367,7 +371,7 @@ func (j *judgeCtx) checkExecution() {
 			j.add("C01.a", s.Entries[1], "submission %d executed %d times (entries at %v)", s.N, len(s.Entries), s.Entries)
 			j.add("C07.c", s.Entries[1], "the data of submission %d reached the worker function %d times (entries at %v): some job does not carry its own submitted data", s.N, len(s.Entries), s.Entries)
 		}
-		if s.AcceptKnown && !s.Accepted && len(s.Entries) > 0 {
+		if (s.AcceptKnown && !s.Accepted || s.AddOK == 2) && len(s.Entries) > 0 {
 			j.add("C01.b", s.Entries[0], "submission %d was rejected (Add returned false / enqueue refused) but the worker function ran for it", s.N)
 		}
 		if c := j.firstCloseOK(s); c != nil {
@@ -395,6 +399,18 @@ func (j *judgeCtx) checkExecution() {
 			j.add("C10.e", j.final, "%s", msg)
 			j.add("C14.d", j.final, "%s", msg)
 			j.add("C18.d", j.final, "%s", msg)
+			// "never block forever": a caller waiting on the handle (or on the batch) of such a job
+			for _, c := range j.r.calls {
+				if c.Ret != 0 {
+					continue
+				}
+				if (c.K == opWait || c.K == opResult) && c.Sub == s.N {
+					j.add("C05.b", j.final, "%s on job %d (invoked at %d) is blocked for good: the job was accepted at %d, never cancelled or purged, the worker is Running and at rest, and the worker function never completed for it (entries %v)", opNames[c.K], s.N, c.Inv, s.AddRet, s.Entries)
+				}
+				if c.K == opBatchWait && s.Batch >= 0 && c.Batch == s.Batch {
+					j.add("C05.b", j.final, "Wait on batch %d (invoked at %d) is blocked for good: item %d was accepted at %d, never cancelled or purged, the worker is Running and at rest, and the worker function never completed for it (entries %v)", c.Batch, c.Inv, s.N, s.AddRet, s.Entries)
+				}
+			}
 			if s.h != nil {
 				j.add("C16.e", j.final, "submission %d was accepted at %d and never cancelled or purged; the worker is Running and at rest, yet its handle will never read Closed: the job never ran (entries %v)", s.N, s.AddRet, s.Entries)
 			}
@@ -865,6 +881,45 @@ func (j *judgeCtx) racedByResumer(c *Call) bool {
 }
 
 // ---------------------------------------------------------------- C09 : pause / stop
+
+// checkResumeReport: what Resume tells its caller is what callers use to choose between
+// "nothing to do" and "Restart it".  With the worker known to be paused when Resume was
+// invoked, "already running" needs somebody who could have made it Running while the call
+// ran (another Resume, a Restart), and "not running" needs somebody who could have stopped it.
+func (j *judgeCtx) checkResumeReport() {
+	for i, c := range j.lcalls {
+		if c.K != opResume || c.Ret == 0 || c.Err == "" || c.Inv == 0 || j.stateAt(c.Inv-1) != lsP {
+			continue
+		}
+		starter, stopper := false, j.wd.cancelled != 0 || j.wd.cfg.UseCtx
+		for k, o := range j.lcalls {
+			if k == i || o.Inv > c.Ret || (o.Ret != 0 && o.Ret < c.Inv) {
+				continue
+			}
+			switch o.K {
+			case opResume, opRestart:
+				starter = true
+				if o.K == opRestart {
+					stopper = true
+				}
+			case opStop, opWaitAndStop, opCancelCtx:
+				stopper = true
+			default:
+				if o.K != opPause && o.K != opPauseAndWait && o.K != opBind {
+					starter, stopper = true, true
+				}
+			}
+		}
+		if c.Err == ErrRunningWorker.Error() && !starter {
+			j.add("C09.e", c.Ret, "Resume [%d,%d] reported %q, but the worker was paused when it was invoked and no Resume or Restart overlaps the call: it was not Running at any moment of the call (a caller told this does not Restart, and what is pending is never processed)", c.Inv, c.Ret, c.Err)
+			j.add("C14.c", c.Ret, "Resume [%d,%d] reported %q, but the worker was paused when it was invoked and no Resume or Restart overlaps the call", c.Inv, c.Ret, c.Err)
+		}
+		if c.Err == ErrNotRunningWorker.Error() && !stopper {
+			j.add("C09.e", c.Ret, "Resume [%d,%d] reported %q, but the worker was paused when it was invoked and no Stop, Restart or cancellation overlaps the call: it should have been resumed", c.Inv, c.Ret, c.Err)
+			j.add("C14.c", c.Ret, "Resume [%d,%d] reported %q, but the worker was paused when it was invoked and nothing could have stopped it during the call", c.Inv, c.Ret, c.Err)
+		}
+	}
+}
 
 func (j *judgeCtx) checkPause() {
 	wd := j.wd
